@@ -95,6 +95,14 @@ theorem threshold_rule_catalogue (cfg : Cfg) (aC aS : Tri Rat) (hosts : List Hos
     intro pk _
     rw [Bool.eq_iff_iff, inSliceB_iff, ← keepCode_eq_code_iff]; simp
 
+-- two hosts, LRG+ELG enabled, widths (1/4, 1/4): r = 1/4 is an LRG (edge included), r = 3/8 an ELG
+example : ((genCent ⟨⟨true, true, false⟩, false, none, 1/2, 100⟩ ⟨0, 0, 0⟩
+      [⟨7, 10, ⟨1, 2, 3⟩, ⟨10, 20, 30⟩, ⟨4, 8, 12⟩, 1/4, ⟨1/4, 1/4, 0⟩, 0⟩,
+       ⟨9, 11, ⟨1, 2, 3⟩, ⟨10, 20, 30⟩, ⟨4, 8, 12⟩, 3/8, ⟨1/4, 1/4, 0⟩, 0⟩]).gals .ELG).map (·.id) = [9] ∧
+    inSliceB ⟨true, true, false⟩ ⟨1/4, 1/4, 0⟩ .ELG (3/8) = true ∧
+    inSliceB ⟨true, true, false⟩ ⟨1/4, 1/4, 0⟩ .ELG (1/4) = false := by
+  refine ⟨?_, ?_, ?_⟩ <;> decide +kernel
+
 /-! ## at most one galaxy per host -/
 
 /-- **at_most_one.**  The slices of different tracers are disjoint (a host cannot yield galaxies of
@@ -138,6 +146,10 @@ theorem nested_in_ic (en : Enabled) (w w' : Widths) (r : Rat)
   by_cases a : en.lrg = true <;> by_cases b : en.elg = true <;> by_cases c : en.qso = true <;>
     simp only [a, b, c, Bool.true_and, Bool.false_and, decide_eq_true_eq, if_false, Bool.false_eq_true] at * <;>
     (try split_ifs at hsel ⊢) <;> (first | omega | (exfalso; linarith))
+
+-- growing the LRG width from 1/4 to 1/2 moves the host with r = 3/8 from ELG (code 2) to LRG (code 1)
+example : keepCode ⟨true, true, false⟩ ⟨1/4, 1/4, 0⟩ (3/8) = 2 ∧ keepCode ⟨true, true, false⟩ ⟨1/2, 1/4, 0⟩ (3/8) = 1 := by
+  decide +kernel
 
 /-- **nested_in_ic (scaling form).**  Widths are `ic_T · b_T` with base occupations `b_T ≥ 0`; raising
 the incompleteness factors (`ic ≤ ic'`, tracer by tracer) never removes a selected host. -/
@@ -187,6 +199,12 @@ theorem later_tracer_irrelevant (T : Tracer) (en en' : Enabled) (w w' : Widths) 
     subst this
     rfl
 
+example : agreeUpTo .ELG ⟨true, true, false⟩ ⟨true, true, true⟩ ⟨1/4, 1/4, 0⟩ ⟨1/4, 1/4, 5⟩ ∧
+    keepCode ⟨true, true, false⟩ ⟨1/4, 1/4, 0⟩ (3/8) = Tracer.ELG.code ∧
+    keepCode ⟨true, true, true⟩ ⟨1/4, 1/4, 5⟩ (3/8) = Tracer.ELG.code := by
+  refine ⟨?_, by decide +kernel, by decide +kernel⟩
+  intro S hS; cases S <;> simp_all [Tracer.rank, Tri.get]
+
 /-- catalogue form: the `T`-centrals of two runs that differ only in tracers after `T` (flags and
 per-host widths) are the same list of galaxies. -/
 theorem later_tracer_irrelevant_catalogue (T : Tracer) (cfg : Cfg) (en' : Enabled) (aC : Tri Rat)
@@ -208,8 +226,11 @@ theorem later_tracer_irrelevant_catalogue (T : Tracer) (cfg : Cfg) (en' : Enable
   intro x _
   rfl
 
-example : agreeUpTo .ELG ⟨true, true, false⟩ ⟨true, true, true⟩ ⟨1/4, 1/4, 0⟩ ⟨1/4, 1/4, 5⟩ := by
-  intro S hS; cases S <;> simp_all [Tracer.rank, Tri.get]
+-- enabling QSO with a width of 5 on every host leaves the ELG centrals of a two-host table unchanged
+example : ((genCent ⟨⟨true, true, true⟩, false, none, 1/2, 100⟩ ⟨0, 0, 0⟩
+      [⟨7, 10, ⟨1, 2, 3⟩, ⟨10, 20, 30⟩, ⟨4, 8, 12⟩, 1/4, ⟨1/4, 1/4, 5⟩, 0⟩,
+       ⟨9, 11, ⟨1, 2, 3⟩, ⟨10, 20, 30⟩, ⟨4, 8, 12⟩, 3/8, ⟨1/4, 1/4, 5⟩, 0⟩]).gals .ELG).map (·.id) = [9] := by
+  decide +kernel
 
 /-- **disabled_tracer_captures_nothing.**  A tracer that is not enabled never gets a host, whatever
 the random number (including 0) and whatever width is associated with it; its catalogue is empty and
@@ -280,6 +301,11 @@ theorem inherits_host_catalogue (cfg : Cfg) (aC aS : Tri Rat) (hosts : List Host
     simp only [List.mem_map, List.mem_filter, decide_eq_true_eq] at hg
     obtain ⟨pk, ⟨hm, hk⟩, rfl⟩ := hg
     exact ⟨pk, hm, (keepCode_eq_code_iff _ _ _ _).1 hk, rfl⟩
+
+example : ((genSats ⟨⟨false, true, false⟩, false, none, 1/2, 100⟩ ⟨0, 1/2, 0⟩
+      [(⟨7, 10, ⟨5, 6, 7⟩, ⟨14, 1, 1⟩, ⟨10, 20, 30⟩, 1/4, 0, 1/8, 1/2, 1/8, 0, 0, 0⟩, 1)]).gals .ELG).map
+        (fun g => (g.id, g.vel.x)) = [(7, 12)] := by
+  decide +kernel
 
 example : (mkCent ⟨⟨true, false, false⟩, false, none, 1/2, 100⟩ (1/4)
     ⟨7, 10, ⟨1, 2, 3⟩, ⟨10, 20, 30⟩, ⟨4, 8, 12⟩, 0, ⟨1, 0, 0⟩, 0⟩).vel.z = 33 := by decide +kernel
